@@ -8,7 +8,7 @@ python3 tools/extract_consts.py || true
 (cd tools/rs2lean && cargo build --release --offline) || echo "rs2lean build failed: translation tie will be reported as lost"
 [ -x tools/rs2lean/target/release/rs2lean ] && tools/rs2lean/target/release/rs2lean ${VERIF_REPO:-/repo}/src lean/SmVerif/Generated || true
 (cd lean && lake build SmVerif smdriver)
-(cd lean && lake build SmVerif.Tie.Vlq SmVerif.Tie.Header SmVerif.Tie.Small SmVerif.Tie.Lookup SmVerif.Tie.Paths SmVerif.Tie.Hermes SmVerif.Tie.Decode SmVerif.Tie.Serialize SmVerif.Tie.Props SmVerif.Tie.Props2 SmVerif.Tie.Props3 SmVerif.Tie.RamBundle SmVerif.Tie.SourceView SmVerif.Tie.Detect SmVerif.Tie.Prefix SmVerif.Tie.Builder SmVerif.Tie.JsIdent SmVerif.Tie.Reader SmVerif.Tie.Index SmVerif.Tie.Adjust SmVerif.Tie.Builder2 SmVerif.Tie.Flatten SmVerif.Tie.Rewrite SmVerif.Tie.HermesDecode SmVerif.Tie.GetLine SmVerif.Tie.RevIter SmVerif.Tie.DecodeCommon SmVerif.Generated.RsFlatten SmVerif.Generated.RsRewrite) || echo "tie modules did not build: translation tie will be reported as lost"
+(cd lean && lake build SmVerif.Tie.Vlq SmVerif.Tie.Header SmVerif.Tie.Small SmVerif.Tie.Lookup SmVerif.Tie.Paths SmVerif.Tie.Hermes SmVerif.Tie.Decode SmVerif.Tie.Serialize SmVerif.Tie.Props SmVerif.Tie.Props2 SmVerif.Tie.Props3 SmVerif.Tie.RamBundle SmVerif.Tie.SourceView SmVerif.Tie.Detect SmVerif.Tie.Prefix SmVerif.Tie.Builder SmVerif.Tie.JsIdent SmVerif.Tie.Reader SmVerif.Tie.Index SmVerif.Tie.Adjust SmVerif.Tie.Builder2 SmVerif.Tie.Flatten SmVerif.Tie.Rewrite SmVerif.Tie.HermesDecode SmVerif.Tie.GetLine SmVerif.Tie.RevIter SmVerif.Tie.DecodeCommon SmVerif.Tie.Rewrite2 SmVerif.Tie.Flatten2 SmVerif.Generated.RsFlatten SmVerif.Generated.RsRewrite) || echo "tie modules did not build: translation tie will be reported as lost"
 [ -f harness/Cargo.lock ] || cp /repo/Cargo.lock harness/Cargo.lock
 (cd harness && cargo build --release --offline --bin smv)
 echo setup done
